@@ -392,6 +392,12 @@ func searchMain(t *testing.T, scs []Scenario) int {
 		wr.Decisions += int64(st.Draws)
 		wr.SimSeconds += res.Sim.End.Seconds()
 		wr.Stalls += res.Sim.Stalls
+		if res.Sim.Parks > 0 {
+			wr.Faults["long-preemption"] += res.Sim.Parks
+		}
+		if res.Sim.Stalls > 0 {
+			wr.Faults["task-stall"] += res.Sim.Stalls
+		}
 		wr.Strategies[[]string{"uniform", "sticky50", "sticky90", "pct1", "pct2", "pct3"}[res.Sim.Strategy]]++
 		for f, n := range res.Ctx.Faults {
 			wr.Faults[f] += n
